@@ -47,6 +47,11 @@ let handle (line : string) : string =
   | ["convert"; omit; data] ->
       let d = parse_sv { s = data; i = 0 } in
       string_of_bytes (model_convert (omit = "1") d)
+  | ["asm"; plan; data] ->
+      let c = { s = plan; i = 0 } in
+      let rec args acc = skip_ws c; if peek c = '\000' then List.rev acc else args (parse_arg c :: acc) in
+      let d = parse_jv { s = data; i = 0 } in
+      string_of_bytes (model_asm (args []) d)
   | ["match"; eq; data] ->
       let e = parse_eqn { s = eq; i = 0 } in
       let d = parse_jv { s = data; i = 0 } in
